@@ -502,3 +502,115 @@ Proof.
   destruct Hin as [Hin|[Hin|[]]]; injection Hin as Hk Hp; subst; vm_compute in H2; discriminate.
 Qed.
 Print Assumptions C15_mirror_merged_refuted.
+
+(* ------------------------------------------------------------------ handler data merges WITHOUT LOSS
+   (the converse of the no-leak theorems), and runs of one process do not influence each other *)
+From Annet Require Import Spec.P_C15_seq Proofs.MeshNoLossProofs Proofs.MeshNoLossLoopProofs.
+
+(* merge(a, b): every attribute set in a, and every attribute set in b that is a field of the class, is set in
+   the result; a single-valued (ForbidChange) attribute keeps its value, a Unite attribute contains the operand *)
+Theorem C15_merge_no_loss :
+  forall sch a b r,
+    merge sch a b = Ok r ->
+    (forall f v m, lookup f a = Some v -> lookup f sch = Some m -> exists w, lookup f r = Some w /\ kept m v w) /\
+    (forall f v m, lookup f b = Some v -> lookup f sch = Some m -> exists w, lookup f r = Some w /\ kept m v w).
+Proof. exact merge_no_loss. Qed.
+Print Assumptions C15_merge_no_loss.
+
+(* merge(first, *others) for any number of operands *)
+Theorem C15_merge_all_no_loss :
+  forall sch others first r,
+    merge_all sch first others = Ok r ->
+    forall o, In o (first :: others) ->
+    forall f v m, lookup f o = Some v -> lookup f sch = Some m -> exists w, lookup f r = Some w /\ kept m v w.
+Proof. exact merge_all_no_loss. Qed.
+Print Assumptions C15_merge_all_no_loss.
+
+(* one handler call of a direct or an indirect rule, in either orientation: whatever the handler wrote on a
+   peer object or on the session object is in that end's DTO (so in the Peer computed from it) *)
+Theorem C15_call_no_loss :
+  forall handler dto device neighbor m ports loc con,
+    execute_direct_pair handler dto device neighbor m ports = Some (Ok (loc, con)) ->
+    let '(l, r, s) :=
+      if m_direct m then handler (r_id (m_rule m)) device neighbor (map fst ports)
+      else handler (r_id (m_rule m)) neighbor device (map snd ports) in
+    let '(mine, theirs) := if m_direct m then (l, r) else (r, l) in
+    forall f v mg, lookup f dto = Some mg ->
+      ((lookup f mine = Some v \/ lookup f s = Some v) -> exists w, lookup f loc = Some w /\ kept mg v w) /\
+      ((lookup f theirs = Some v \/ lookup f s = Some v) -> exists w, lookup f con = Some w /\ kept mg v w).
+Proof. exact call_no_loss. Qed.
+Print Assumptions C15_call_no_loss.
+
+(* through the keyed merge: every handler call a loop of execute_for makes is kept in the session the loop returns
+   for the other end of that call, whatever other calls were merged into the same (fqdn, addr, vrf) key.
+   `shows dto acc other loc con`: acc has a session with `other` whose local / connected DTOs keep every field of
+   loc / con (obj_kept: present, ForbidChange value equal, Unite set included).  Premises: Pair.local and
+   Pair.connected are merged by Merge() (true of the real classes, see C15_example_key_guards). *)
+Theorem C15_no_loss_indirect :
+  forall sch_pair dto,
+    lookup "local" sch_pair = Some (MMerge dto) -> lookup "connected" sch_pair = Some (MMerge dto) ->
+    forall imatches ihandler rules device all acc m loc con,
+      execute_indirect imatches ihandler dto sch_pair rules device all = inr acc ->
+      In m (lookup_direct imatches rules device all) ->
+      execute_direct_pair ihandler dto device (other_end m) m [] = Some (Ok (loc, con)) ->
+      shows dto acc (other_end m) loc con.
+Proof. exact indirect_no_loss. Qed.
+Print Assumptions C15_no_loss_indirect.
+
+Theorem C15_no_loss_direct :
+  forall sch_pair dto,
+    lookup "local" sch_pair = Some (MMerge dto) -> lookup "connected" sch_pair = Some (MMerge dto) ->
+    forall dmatches dhandler connections rules device nbs acc m ports loc con,
+      execute_direct dmatches dhandler connections dto sch_pair rules device nbs = inr acc ->
+      In (m, ports) (direct_work connections device (lookup_direct dmatches rules device nbs)) ->
+      execute_direct_pair dhandler dto device (other_end m) m ports = Some (Ok (loc, con)) ->
+      shows dto acc (other_end m) loc con.
+Proof. exact direct_no_loss. Qed.
+Print Assumptions C15_no_loss_direct.
+
+(* full statement: P_C15_no_loss of the model's own execute_for.  NOT proved as one theorem: C15_call_no_loss
+   (handler -> DTOs of the call) and C15_no_loss_direct / _indirect (DTOs of the call -> session of the loop) are;
+   the last step, mk_peer reading the Peer fields from the session's DTOs (conv_direct / conv_indirect) and the
+   bookkeeping of e_table / e_match against lookup_direct, is only checked on the real executor by the
+   correspondence run (Spec.P_C15_seq.P_C15_no_loss on every generated registry). *)
+Definition C15_no_loss_statement : Prop :=
+  forall sd si svl svp sp c,
+    P_C15_no_loss c (map (fun d => (d, model_exec sd si svl svp sp c d)) (e_devices c)) = true.
+
+(* the k-th run of a sequence of execute_for calls is the fresh run of that device: the model is a function of
+   (registry, storage, device) and has no state to carry over -- so P_C15_history on real outputs compares the
+   implementation with what the model says for EVERY sequence *)
+Theorem C15_sequence_is_pointwise :
+  forall (A : Type) (run : string -> A) devs devs' i j d,
+    nth_error devs i = Some d -> nth_error devs' j = Some d ->
+    nth_error (model_sequence run devs) i = Some (run d) /\
+    nth_error (model_sequence run devs) i = nth_error (model_sequence run devs') j.
+Proof. intros A run devs devs' i j d. apply sequence_pointwise. Qed.
+Print Assumptions C15_sequence_is_pointwise.
+
+(* non-vacuity: a call that writes families on the session and on one peer, an AS number per side *)
+Definition nl_dto : schema := [("addr", MForbidChange); ("asnum", MForbidChange); ("families", MUnite)].
+Definition nl_handler (_ : nat) (_ _ : string) (_ : list string) : entries * entries * entries :=
+  ([("addr", VAtom (AStr "10.0.0.1/31")); ("asnum", VAtom (AInt 65001))],
+   [("addr", VAtom (AStr "10.0.0.2/31")); ("asnum", VAtom (AInt 65002)); ("families", VSet [AStr "l2vpn_evpn"])],
+   [("families", VSet [AStr "ipv4_unicast"])]).
+
+Example C15_example_call_no_loss :
+  execute_direct_pair nl_handler nl_dto "a1" "b1" (Matched (Rule 0 United) true "a1" "b1") [("e1", "e1")] =
+  Some (Ok ([("addr", VAtom (AStr "10.0.0.1/31")); ("asnum", VAtom (AInt 65001));
+             ("families", VSet [AStr "ipv4_unicast"])],
+            [("addr", VAtom (AStr "10.0.0.2/31")); ("asnum", VAtom (AInt 65002));
+             ("families", VSet [AStr "l2vpn_evpn"; AStr "ipv4_unicast"])])) /\
+  kept MUnite (VSet [AStr "ipv4_unicast"]) (VSet [AStr "l2vpn_evpn"; AStr "ipv4_unicast"]).
+Proof. split; vm_compute; reflexivity. Qed.
+
+(* two indirect rules for the pair (a1, b1), same address: the second call is merged into the session of the first;
+   both calls show in the one session the loop returns (ex_irules / ex_ihandler above) *)
+Example C15_example_no_loss_loop :
+  match execute_indirect ex_imatches ex_ihandler ex_isch ex_psch ex_irules "a1" ex_all with
+  | inr acc =>
+    lookup "local" ex_psch = Some (MMerge ex_isch) /\ lookup "connected" ex_psch = Some (MMerge ex_isch) /\
+    List.length (lookup_direct ex_imatches ex_irules "a1" ex_all) >= 2 /\ List.length acc >= 1
+  | inl _ => False
+  end.
+Proof. vm_compute. repeat split; repeat constructor. Qed.
